@@ -122,7 +122,24 @@ func runC05(c *Ctx) {
 	for _, sf := range k.storeFns {
 		for _, ci := range callsToFn(k.frame().fn, sf) {
 			okp := true
-			for _, a := range ci.Common().Args[1:] {
+			// the positions that matter: the parameters of the storing function that its compose call consumes (all
+			// slice / *T arguments when that cannot be told)
+			consumed := map[int]bool{}
+			if cs := callsToFn(sf, k.compose); len(cs) == 1 {
+				for _, ca := range cs[0].Common().Args {
+					if cp, ok := stripConv(ca).(*ssa.Parameter); ok && cp.Parent() == sf {
+						for pi, fp := range sf.Params {
+							if fp == cp {
+								consumed[pi] = true
+							}
+						}
+					}
+				}
+			}
+			for ai, a := range ci.Common().Args {
+				if ai == 0 || (len(consumed) > 0 && !consumed[ai]) {
+					continue
+				}
 				a = k.frame().toMonitor(a)
 				switch a.Type().Underlying().(type) {
 				case *types.Slice:
@@ -591,6 +608,51 @@ func c05Serial(c *Ctx, k *core) {
 			continue
 		}
 		c.ok("atomic-pair", relName(f)+"#fresh-pair", sc.Pos(), "store publishes a freshly allocated (serial, cfg) pair")
+		// the serial may be handed in by the monitor (`next := old.s + 1; install(..., next, ...)`): then the same is asked
+		// of the argument at the (single) call site - loaded there, no store between the load and the call - and, inside
+		// the storing function, no other store before this one
+		if sp, isParam := stripConv(ser).(*ssa.Parameter); isParam {
+			acts := k.actualsOf(sp)
+			okP := len(acts) > 0
+			why := "the serial parameter has no visible call site"
+			for _, a := range acts {
+				add, ok := stripConv(a.Arg).(*ssa.BinOp)
+				var src *ssa.Call
+				if ok && add.Op == token.ADD {
+					if n, isC := constInt(add.Y); isC && n == 1 {
+						src = k.serialSource(add.X)
+					} else if n, isC := constInt(add.X); isC && n == 1 {
+						src = k.serialSource(add.Y)
+					}
+				}
+				site := a.Site.(ssa.Instruction)
+				switch {
+				case src == nil:
+					okP, why = false, "the serial passed by "+relName(site.Parent())+" is "+canon(a.Arg)+", not <loaded serial> + 1"
+				case !domI(src, site):
+					okP, why = false, "the serial load in "+relName(site.Parent())+" does not dominate the call"
+				case reachAvoid(site.Parent(), src, func(i ssa.Instruction) bool {
+					if isStoreCall(i) {
+						return true
+					}
+					if ci, ok := i.(*ssa.Call); ok && i != site {
+						for _, sf := range k.storeFns {
+							if staticCallee(ci) == origin(sf) {
+								return true
+							}
+						}
+					}
+					return false
+				}, func(i ssa.Instruction) bool { return i == site }) != nil:
+					okP, why = false, "another install lies between the serial load in "+relName(site.Parent())+" and the call"
+				}
+			}
+			if okP && reachAvoid(f, nil, func(i ssa.Instruction) bool { return isStoreCall(i) && i != sc.(ssa.Instruction) }, func(i ssa.Instruction) bool { return i == sc.(ssa.Instruction) }) != nil {
+				okP, why = false, "another store precedes this one in the storing function"
+			}
+			c.check(okP, "serial-plus-one", name, sc.Pos(), "stored serial = the serial the caller loaded immediately before the call (no store in between) + 1", why)
+			continue
+		}
 		add, ok := ser.(*ssa.BinOp)
 		var src *ssa.Call
 		okOne := false
